@@ -5,7 +5,7 @@ pub mod report;
 pub mod rng;
 pub mod watch;
 
-pub use env::{explore, explore_bounded, replay, Choice, Env, ExploreStats, Kind};
+pub use env::{explore, explore_bounded, explore_bounded_h, replay, Choice, Env, ExploreStats, Kind};
 pub use par::{guarded, par_map, quiet_panics};
 pub use ratio::{binom, factorial, gcd, lcm, lcm_upto, Law, Ratio};
 pub use report::Run;
